@@ -16,6 +16,8 @@ appends new ones; alternatives of new decisions are pushed on a work list.
 from __future__ import annotations
 
 import math
+import os
+import re
 from fractions import Fraction
 
 import numpy as _np
@@ -27,6 +29,48 @@ import z3
 
 class Unsupported(Exception):
     """The engine met a construct/semantics it does not model: verdict 'undecided', never a violation."""
+
+
+class ContractUnbound(Exception):
+    """A sidecar contract no longer binds to the code: the function (module, stub target) it names is gone, its private
+    signature changed, or an object built by the harness lacks a private attribute that the real constructor now sets.
+    That says nothing about the property: verdict 'undecided' for the scenario (lost proof), never a violation."""
+
+
+_SIGNATURE_MISMATCH = re.compile(
+    r"(takes (from )?\d+( to \d+)? positional arguments? but \d+ (was|were) given|got an unexpected keyword argument|"
+    r"missing \d+ required (positional|keyword-only) arguments?|got multiple values for argument|takes no arguments|"
+    r"got some positional-only arguments)")
+_VERIF_ROOT = os.path.dirname(os.path.dirname(os.path.abspath(__file__))) + os.sep
+
+
+def binding_error(exc):
+    """Returns a reason string if `exc` shows that the harness no longer fits the code (see ContractUnbound), else None."""
+    if isinstance(exc, ContractUnbound):
+        return str(exc)
+    tb, last = exc.__traceback__, None
+    while tb is not None:
+        last, tb = tb, tb.tb_next
+    where = last.tb_frame.f_code.co_filename if last is not None else ""
+    if isinstance(exc, TypeError) and _SIGNATURE_MISMATCH.search(str(exc)) and where.startswith(_VERIF_ROOT):
+        # the call that does not fit was made by the harness (the callee's frame was never entered)
+        return "the harness calls a function whose signature changed: %s" % exc
+    if isinstance(exc, AttributeError) and isinstance(getattr(exc, "name", None), str) and exc.name.startswith("_") and not exc.name.startswith("__"):
+        obj = getattr(exc, "obj", None)
+        if obj is not None and not isinstance(obj, type) and getattr(obj, "__dict__", None) is not None:
+            # a private attribute missing on an instance: a harness artefact iff the class (or a base) assigns it somewhere,
+            # i.e. the real constructor would have set it and the harness, which builds some objects field by field, did not
+            import inspect
+
+            pat = re.compile(r"self\.%s\s*(:[^=\n]+)?=[^=]" % re.escape(exc.name))
+            for klass in type(obj).__mro__:
+                try:
+                    src = inspect.getsource(klass)
+                except (OSError, TypeError):
+                    src = getattr(klass, "__shadow_source__", "")
+                if src and pat.search(src):
+                    return "an object built by the harness lacks the private attribute %s that %s assigns" % (exc.name, klass.__name__)
+    return None
 
 
 class EngineError(BaseException):
